@@ -49,6 +49,8 @@ def run(res, tier, seed):
         "    li a7, 10\n    ecall\nleaf:\n    li t1, 1\n    add a0, a0, t1\n    ret\n.data\nbuf: .word 0\n",
         "main:\n    la t1, leaf\n    jalr ra, 0(t1)\n    jal t1, side\n    li a7, 10\n    ecall\nside:\n    addi a0, a0, 1\n"
         "    jr t1\nleaf:\n    addi a0, a0, 2\n    ret\n",
+        "main:\n    li t1, 5\n    li t3, 6\n    li s1, 7\n    jal leaf\n    add a1, t1, t3\n    add a1, a1, t3\n    mv a0, a1\n    li a7, 1\n"
+        "    ecall\n    li a7, 10\n    ecall\nleaf:\n    addi a0, a0, 1\n    ret\n",
         "main:\n    li s1, 4\n    li t1, 2\n    blt t1, s1, over\n    addi t1, t1, 1\nover:\n    mv a0, t1\n    li a7, 1\n"
         "    ecall\n    li a7, 10\n    ecall\n",
     ]
